@@ -46,3 +46,14 @@ mk d31_depth_limit_error_helper    C02-limit-error-zeroes-depth          fix_c02
 mk d32_ctx_cleared_on_every_exit   C11-ctx-clear-missed-on-cancel-exit   fix_c11i.py
 mk d33_filtered_finding_not_built  C16-threshold-return-skips-args       fix_c16i.py
 mk d35_tempfile_error_context      C19-tempfile-fallback-direct-write    fix_c19i.py
+mk d36_done_poll_names_ctx_err      C13-done-poll-reports-canceled              fix_c13j.py
+mk d37_redundant_parens_guarded     C02-subquery-redundant-parens-unguarded     fix_c02j.py
+mk d38_subscript_reset_pointer      C01-subscript-reset-value-receiver          fix_c01j.py
+mk d39_nulls_checked_then_consumed  C12-nulls-clause-consumes-before-check      fix_c12j.py
+mk d40_prefilter_three_to_fourteen  C03-keyword-lookup-length-prefilter         fix_c03j.py
+mk d41_withcause_refuses_only_self  C11-withcause-skips-same-code-chain         fix_c11j.py
+mk d42_array_ctor_putters_clear     C14-array-constructor-subquery-not-cleared  fix_c14j.py
+mk d43_from_children_by_index       C15-from-children-shared-loop-variable      fix_c15j.py
+mk d44_release_resets_then_pools    C10-newparser-pooled-release-keeps-options  fix_c10j.py
+mk d45_indices_cleared_and_emptied  C07-subscript-indices-cleared-not-truncated fix_c07j.py
+mk d46_leading_word_any_space       C19-lookslikesql-newline-after-keyword      fix_c19j.py
